@@ -6,9 +6,11 @@ PID = "C16"
 def check(tier, seed):
     q = tier == "quick"
     return G.generic_check(PID, "proof", tier, seed, coq=True,
-        rule='obligations: theorems of coq/properties/C16.v over FenImpl.v (fen_total for ALL byte strings, well-formedness, reparse, round trip of legal positions); correspondence: NewPositionFen accept/reject + printed FEN on structural families and mutated strings evaluated by FenImpl.setup inside Coq (c16-cases); monitors: FEN: structural families (every rank replaced by over-long/short/digit-0/9 variants, every field count, all 64 ep squares x 3 boards, signed/huge/garbled clocks) + byte-level mutations of valid FENs (incl. non-UTF-8 bytes) + valid FENs: NewPositionFen under recover(), accepted strings must reparse to themselves; UCI: ~60 command templates, all their token prefixes, a 1200-ply move list, mutated lines through a real handler under recover() and a watchdog, followed by isready and a check that a valid position is held; a case = one string',
+        rule='obligations: theorems of coq/properties/C16.v over FenImpl.v (fen_total for ALL byte strings, well-formedness, reparse, round trip of legal positions); UCI dispatcher theorems over UciModel.v (uci_total for all lines and states, isready answered incl. surrounding white space, position = fold of Rules.make over the move list, kept on error, setoption changes exactly the named field); correspondence: command sessions on a fresh real UciHandler vs UciModel.run inside Coq (final FEN, config.Settings vector, readyok count, accepted go count; uci-cases); NewPositionFen accept/reject + printed FEN on structural families and mutated strings evaluated by FenImpl.setup inside Coq (c16-cases); monitors: FEN: structural families (every rank replaced by over-long/short/digit-0/9 variants, every field count, all 64 ep squares x 3 boards, signed/huge/garbled clocks) + byte-level mutations of valid FENs (incl. non-UTF-8 bytes) + valid FENs: NewPositionFen under recover(), accepted strings must reparse to themselves; UCI: ~60 command templates, all their token prefixes, a 1200-ply move list, mutated lines through a real handler under recover() and a watchdog, followed by isready and a check that a valid position is held; a case = one string',
         streams=[dict(name="fen_model_vs_engine", kind="coqcases", shards=lambda t: 2 if t == "quick" else 16,
                       args=lambda t, s, sh, path: ["c16-cases", 250 if t == "quick" else 1500, s * 1000 + 300 + sh, path], coq_timeout=3000),
+                 dict(name="uci_model_vs_engine", kind="coqcases", shards=lambda t: 2 if t == "quick" else 16,
+                      args=lambda t, s, sh, path: ["uci-cases", 60 if t == "quick" else 400, s * 1000 + 500 + sh, path], coq_timeout=3000),
                  dict(name='fen_monitor', kind="monitor", shards=lambda t: 2 if t == "quick" else 16,
                       args=lambda t, s, sh, path: ['c16-fen', 20000 if t == "quick" else 400000, s * 1000 + sh]),
                  dict(name='uci_monitor', kind="monitor", shards=lambda t: 2 if t == "quick" else 16,
